@@ -604,7 +604,7 @@ SPECS['C17'] = dict(
         'the three overloads (raw with element size 1 and 2, Array<byte>, std::string) in Write/WriteText over an optional longer pre-existing file (truncation), then 0-2 Append/AppendText sessions (also onto a '
         'missing file), verified on disk with std::filesystem/ifstream after every close; then read in Read and ReadText mode through read(), readStr() and read(buffer,size,count) interleaved with seek '
         '(all origins)/tell/size against a position model; NotFound / NotFile probes. non-trivial = non-empty file; distinct = distinct (content, split, mode)',
-        samples, observed=pick(agg, 'files', 'bytesWritten', 'bytesRead', 'writeCalls', 'appendSessions', 'truncations', 'seeks', 'sizeCalls', 'sizeCallsWhileWriting', 'sparseFilesOver2GiB', 'descriptorChecks', 'readCalls', 'errorProbes', 'reopenedOnSamePath', 'readerObjectsReused', 'missingBelowRegularFile', 'missingOverlongName', 'missingInMissingDirectory',
+        samples, observed=pick(agg, 'files', 'bytesWritten', 'bytesRead', 'writeCalls', 'appendSessions', 'truncations', 'seeks', 'sizeCalls', 'sizeCallsWhileWriting', 'sparseFilesOver2GiB', 'descriptorChecks', 'seeksPastEnd', 'twoFilesOpenAtOnce', 'readCalls', 'errorProbes', 'reopenedOnSamePath', 'readerObjectsReused', 'missingBelowRegularFile', 'missingOverlongName', 'missingInMissingDirectory',
                                'emptyFiles', 'filesWithNul', 'filesWith0xFF', 'filesWithCRLF', 'filesOver1MB', 'nontrivialCases'),
         content_classes=agg.get('contentClasses', {}), modes=agg.get('modes', {})),
     assumptions=['POSIX only: text and binary modes are byte-identical here; the Windows CRLF translation branch is never executed',
